@@ -26,6 +26,16 @@ def run(path):
                 bad = sum(1 for _, tp in sh for l in open(tp) if '"ev":"hang"' in l[:40])
                 log("watchdog: %d hangs in 20 runs" % bad)
                 return report(pid, path, bad > 0)
+            if module == "SodFinal":
+                sh = vlib.run_harness(binp, [dict(test, id="%s-%d" % (test["id"], i)) for i in range(40)], w.sub("run"), shards=4, per_test_timeout="20s")
+                bad = 0
+                for i, (_, tp) in enumerate(sh):
+                    cfg = 'SPECIFICATION Spec\nCONSTANTS\n  TraceFile = "%s"\nINVARIANTS NoPanic FinalOK\nPOSTCONDITION TraceAccepted\nCHECK_DEADLOCK FALSE\n' % tp
+                    r = vlib.tlc("SodFinal", cfg, w.sub("val-%d" % i), workers=1, timeout=300, heap="2g")
+                    if r.violated or r.post_failed:
+                        bad += 1
+                log("final state after concurrent Drop + Create: %d of 4 batches of 10 re-executions rejected" % bad)
+                return report(pid, path, bad > 0)
             if module == "SodLin":
                 sh = vlib.run_harness(binp, [dict(test, id="%s-%d" % (test["id"], i)) for i in range(50)], w.sub("run"), shards=4, per_test_timeout="10s")
                 nf = 0
